@@ -1,9 +1,96 @@
-import Ivg.Model.Decoder
-import Ivg.Model.Arc
-import Ivg.Model.MdIcons
+import Ivg.Lemmas.FitQ
 import Ivg.Gen.Tie
 import Ivg.Obligations
-/-! # Property C12 — theorems (work in progress: tie obligations only so far) -/
+/-!
+# C12 — aspect-preserving fitting (`ViewBox.AspectMeet` / `AspectSlice` / `Size`)
+
+Property text: "For every viewBox of positive size and every positive target size, aspect-preserving
+fitting returns, up to float32 rounding relative to the target size, a rectangle with the viewBox's
+aspect ratio that lies within the target and equals it in at least one dimension (meet), or covers the
+target and equals it in at least one dimension (slice), placed so that the slack (or overflow) is
+divided according to the alignment fractions: 0 aligns the minima, 0.5 centres, 1 aligns the maxima.
+Size returns max minus min in each dimension."
+
+The model (`Ivg/Model/ViewBox.lean`, mirroring `/repo/ivg.go`) is number-generic.  The theorems below
+are about its instance at EXACT arithmetic (`ℚ`, `Ivg/Lemmas/RatInst.lean`): the same program text,
+computed without rounding, satisfies every clause of the property exactly.  See the end of the file
+for what this does not cover.
+-/
 namespace Ivg.Props.C12
+open Ivg FitQ
+
+/-- Clause "meet": the result `(x0, y0, x1, y1)` of `AspectMeet` has the viewBox's aspect ratio
+    (`aspect`), positive size (`pos`), lies within the target `[0,dx]×[0,dy]` (`inside`), equals it in
+    at least one dimension (`touches`) and divides the slack by the alignment fractions (`align`:
+    `x0 = (dx − width)·ax`, `y0 = (dy − height)·ay`).  `FitQ.MeetSpec` is the conjunction of exactly
+    these five clauses. -/
+theorem meet_fits (v : ViewBox ℚ) (dx dy ax ay : ℚ)
+    (hx : v.minX < v.maxX) (hy : v.minY < v.maxY) (hdx : 0 < dx) (hdy : 0 < dy)
+    (hax : 0 ≤ ax ∧ ax ≤ 1) (hay : 0 ≤ ay ∧ ay ≤ 1) :
+    MeetSpec v dx dy ax ay (v.aspectMeet dx dy ax ay).1 (v.aspectMeet dx dy ax ay).2.1
+      (v.aspectMeet dx dy ax ay).2.2.1 (v.aspectMeet dx dy ax ay).2.2.2 :=
+  FitQ.meet_fits v dx dy ax ay hx hy hdx hdy hax hay
+
+/-- Clause "slice": dually the result covers the target (`covers`: `x0 ≤ 0 ∧ dx ≤ x1 ∧ y0 ≤ 0 ∧ dy ≤ y1`),
+    equals it in one dimension and divides the overflow by the alignment fractions. -/
+theorem slice_covers (v : ViewBox ℚ) (dx dy ax ay : ℚ)
+    (hx : v.minX < v.maxX) (hy : v.minY < v.maxY) (hdx : 0 < dx) (hdy : 0 < dy)
+    (hax : 0 ≤ ax ∧ ax ≤ 1) (hay : 0 ≤ ay ∧ ay ≤ 1) :
+    SliceSpec v dx dy ax ay (v.aspectSlice dx dy ax ay).1 (v.aspectSlice dx dy ax ay).2.1
+      (v.aspectSlice dx dy ax ay).2.2.1 (v.aspectSlice dx dy ax ay).2.2.2 :=
+  FitQ.slice_covers v dx dy ax ay hx hy hdx hdy hax hay
+
+-- non-vacuity: a 2:1 viewBox in a square target, centred; and the values the functions return there
+example : let v : ViewBox ℚ := ⟨-2, 0, 2, 2⟩
+    v.minX < v.maxX ∧ v.minY < v.maxY ∧ (0 : ℚ) < 10 ∧ (0 : ℚ) ≤ 1 / 2 ∧ (1 / 2 : ℚ) ≤ 1 := by norm_num
+example : (⟨-2, 0, 2, 2⟩ : ViewBox ℚ).aspectMeet 10 10 (1 / 2) (1 / 2) = (0, 5 / 2, 10, 15 / 2) := by
+  rw [aspectMeet_eq]; norm_num
+example : (⟨-2, 0, 2, 2⟩ : ViewBox ℚ).aspectSlice 10 10 (1 / 2) (1 / 2) = (-5, 0, 15, 10) := by
+  rw [aspectSlice_eq]; norm_num
+
+/-- Clause "0 aligns the minima, 0.5 centres, 1 aligns the maxima" for meet, x and y: with fraction 0
+    the minimum is at 0, with 1 the maximum is at the target size, with 1/2 the margins on both sides
+    are equal. -/
+theorem meet_alignment (v : ViewBox ℚ) (dx dy ax ay : ℚ)
+    (hx : v.minX < v.maxX) (hy : v.minY < v.maxY) (hdx : 0 < dx) (hdy : 0 < dy)
+    (hax : 0 ≤ ax ∧ ax ≤ 1) (hay : 0 ≤ ay ∧ ay ≤ 1) :
+    let r := v.aspectMeet dx dy ax ay
+    ((ax = 0 → r.1 = 0) ∧ (ax = 1 → r.2.2.1 = dx) ∧ (ax = 1 / 2 → r.1 - 0 = dx - r.2.2.1)) ∧
+    ((ay = 0 → r.2.1 = 0) ∧ (ay = 1 → r.2.2.2 = dy) ∧ (ay = 1 / 2 → r.2.1 - 0 = dy - r.2.2.2)) :=
+  ⟨align_cases (FitQ.meet_fits v dx dy ax ay hx hy hdx hdy hax hay).align.1,
+   align_cases (FitQ.meet_fits v dx dy ax ay hx hy hdx hdy hax hay).align.2⟩
+
+/-- … and for slice. -/
+theorem slice_alignment (v : ViewBox ℚ) (dx dy ax ay : ℚ)
+    (hx : v.minX < v.maxX) (hy : v.minY < v.maxY) (hdx : 0 < dx) (hdy : 0 < dy)
+    (hax : 0 ≤ ax ∧ ax ≤ 1) (hay : 0 ≤ ay ∧ ay ≤ 1) :
+    let r := v.aspectSlice dx dy ax ay
+    ((ax = 0 → r.1 = 0) ∧ (ax = 1 → r.2.2.1 = dx) ∧ (ax = 1 / 2 → r.1 - 0 = dx - r.2.2.1)) ∧
+    ((ay = 0 → r.2.1 = 0) ∧ (ay = 1 → r.2.2.2 = dy) ∧ (ay = 1 / 2 → r.2.1 - 0 = dy - r.2.2.2)) :=
+  ⟨align_cases (FitQ.slice_covers v dx dy ax ay hx hy hdx hdy hax hay).align.1,
+   align_cases (FitQ.slice_covers v dx dy ax ay hx hy hdx hdy hax hay).align.2⟩
+
+example : (⟨-2, 0, 2, 2⟩ : ViewBox ℚ).aspectMeet 10 10 0 1 = (0, 5, 10, 10) := by
+  rw [aspectMeet_eq]; norm_num
+
+/-- Clause "Size returns max minus min in each dimension" (at every number type the subtraction is
+    the type's own; at `ℚ` it is exact). -/
+theorem size_eq (v : ViewBox ℚ) : v.size = (v.maxX - v.minX, v.maxY - v.minY) := FitQ.size_eq v
+
+/-!
+## Not proved in this file
+
+* "up to float32 rounding relative to the target size": the theorems are about the model instantiated
+  at `ℚ`.  No bound on the difference between the `F32` instance (which is bit-exact with Go and is what
+  the differential suite runs) and the `ℚ` instance is proved; in particular at `F32` the `inside` /
+  `covers` inequalities can fail by rounding of `dx / vbAR` or `dy * vbAR`, and the aspect equation holds
+  only approximately.
+* Degenerate inputs (zero or negative viewBox or target size, NaN/Inf) are outside the property.
+-/
+
 end Ivg.Props.C12
-#obligations C12 [Ivg.Gen.Tie.drawOps_tie, Ivg.Gen.Tie.magic_tie, Ivg.Gen.Tie.errorStrings_tie]
+
+#obligations C12 [
+  Ivg.Props.C12.meet_fits, Ivg.Props.C12.slice_covers, Ivg.Props.C12.meet_alignment,
+  Ivg.Props.C12.slice_alignment, Ivg.Props.C12.size_eq,
+  Ivg.Gen.Tie.drawOps_tie, Ivg.Gen.Tie.magic_tie]
